@@ -130,6 +130,19 @@ def check_transitions_split(out: Outcome, case, tag):
                     cnt += Jumps(p, minimal_residence=mr).n_jumps
                 except ValueError:
                     pass
+            # Jumps.split: the parts of a Jumps object, analysed with ITS settings
+            if total > 0:
+                try:
+                    jparts = Jumps(tr, minimal_residence=mr).split(n_parts)
+                    jc = sum(jp.n_jumps for jp in jparts)
+                    if jc > total or any(jp.minimal_residence != mr for jp in jparts):
+                        out.fail('property', 'jumps-split-subadditive', {**c, 'mr': mr}, expected=f'<= {total} with minimal_residence {mr}',
+                                 observed=[jc, [jp.minimal_residence for jp in jparts]])
+                    if jc != cnt:
+                        out.fail('property', 'jumps-split-parts', {**c, 'mr': mr}, expected=cnt, observed=jc,
+                                 note='Jumps.split parts differ from Jumps(part, same settings)')
+                except ValueError:
+                    out.count('jumps-split-refused-part-without-jumps')
             if cnt > total:
                 out.fail('property', 'jumps-subadditive', {**c, 'mr': mr}, expected=f'<= {total}', observed=cnt)
             if cnt < total:
@@ -205,7 +218,7 @@ def gen_case(rng, long=False):
     n_ev = sum(len(hist.spec_events(s[:, a], i[:, a])) for a in range(A))
     cand = sorted({1, 2, 3, int(rng.integers(1, max(2, n_ev + 1))), n_ev if n_ev else 1})
     return {'s': s.T.tolist(), 'i': i.T.tolist(), 'n_parts': [n for n in cand if n >= 1], 'seed': int(rng.integers(1 << 30)),
-            'mrs': [0, int(rng.integers(1, 4))]}
+            'mrs': [0, int(rng.integers(1, 8))]}
 
 
 def corpus():
